@@ -10,6 +10,11 @@ CONSTANTS
   MaxCallOpts = 2
   CallWindow = 3
   MinStmts = 1
+  MinCallOpts = 1
+  CallMode = "subsets"
+  SubKind = "graph"
+  CbCopyFix = TRUE
+  SubByComponent = FALSE
   CopyFix = TRUE
 INIT Init
 NEXT Next
